@@ -120,14 +120,37 @@ def g_mypad(mode, which):
 # ---------------------------------------------------------------------------
 # 1-D kernels
 # ---------------------------------------------------------------------------
-def g_afb1d(mode, dim, drop_f1_pre=False):
+def shift_canary(contract):
+    """deliberately wrong variant of a postcondition: the result shifted by one
+    sample along the last axis (vacuity guard: must be refuted)"""
+    def wrong(it, *a, **k):
+        r = contract(it, *a, **k)
+        t = r[0] if isinstance(r, tuple) else r
+        ts = t.snap()
+        t2 = fresh_like(t.shape, lambda idx: ts(list(idx[:-1]) + [simp(I(idx[-1]) + 1)]), t)
+        return (t2,) + tuple(r[1:]) if isinstance(r, tuple) else t2
+    return wrong
+
+
+def g_afb1d(mode, dim, short=False, canary=False):
+    """short=True: the region of known finding F1 (periodization, even-extended
+    length < L) - the contract's precondition is replaced by its negation"""
+    base = list(BASE)
+    contract = CD.afb1d_contract
+    if short:
+        n_ = W if dim % 4 == 3 else H
+        base.append(n_ + n_ % 2 < L)
+        contract = lambda it, *a, **k: CD.afb1d_contract(it, *a, f1_pre=False, **k)
+    if canary:
+        contract = shift_canary(contract)
+
     def mk():
         x = CD.data_tensor('x', (Bn, C, H, W))
         h0 = CD.filt_tensor('h0', _filt_shape(dim, L), dim % 4)
         h1 = CD.filt_tensor('h1', _filt_shape(dim, L), dim % 4)
         return [x, h0, h1], {'mode': mode, 'dim': dim}
-    return verify.verify_function('afb1d[%s,dim=%d]' % (mode, dim), 'dwt.lowlevel', 'afb1d', mk, BASE,
-                                  CD.afb1d_contract, HELPERS, SIZES)
+    return verify.verify_function('afb1d[%s,dim=%d]' % (mode, dim), 'dwt.lowlevel', 'afb1d', mk, base,
+                                  contract, HELPERS, SIZES)
 
 
 def g_afb1d_reshaped(mode):
@@ -141,12 +164,147 @@ def g_afb1d_reshaped(mode):
                                   CD.afb1d_contract, HELPERS, SIZES)
 
 
-def g_sfb1d(mode, dim):
+def g_sfb1d(mode, dim, short=False, canary=False):
+    base = list(BASE)
+    contract = CD.sfb1d_contract
+    if short:
+        n_ = W if dim % 4 == 3 else H
+        base.append(2 * n_ < L - 2)
+        contract = lambda it, *a, **k: CD.sfb1d_contract(it, *a, f1_pre=False, **k)
+    if canary:
+        contract = shift_canary(contract)
+
     def mk():
         lo = CD.data_tensor('lo', (Bn, C, H, W))
         hi = CD.data_tensor('hi', (Bn, C, H, W))
         g0 = CD.filt_tensor('g0', _filt_shape(dim, L), dim % 4)
         g1 = CD.filt_tensor('g1', _filt_shape(dim, L), dim % 4)
         return [lo, hi, g0, g1], {'mode': mode, 'dim': dim}
-    return verify.verify_function('sfb1d[%s,dim=%d]' % (mode, dim), 'dwt.lowlevel', 'sfb1d', mk, BASE,
-                                  CD.sfb1d_contract, HELPERS, SIZES)
+    return verify.verify_function('sfb1d[%s,dim=%d]' % (mode, dim), 'dwt.lowlevel', 'sfb1d', mk, base,
+                                  contract, HELPERS, SIZES)
+
+
+# ---------------------------------------------------------------------------
+# filter preparation, mode tables
+# ---------------------------------------------------------------------------
+def g_prep(which, nf=2):
+    names = {'prep_filt_afb1d': CD.prep_filt_afb1d_contract, 'prep_filt_sfb1d': CD.prep_filt_sfb1d_contract,
+             'prep_filt_afb2d': CD.prep_filt_afb2d_contract, 'prep_filt_sfb2d': CD.prep_filt_sfb2d_contract}
+    callee = {k: CD.CONTRACTS[k] for k in ('dwt.lowlevel:prep_filt_afb1d', 'dwt.lowlevel:prep_filt_sfb1d')} \
+        if which.endswith('2d') else {}
+
+    def mk():
+        a = [CD.np1d('f0', L), CD.np1d('f1', L)]
+        if nf == 4:
+            a += [CD.np1d('f2', Lr), CD.np1d('f3', Lr)]
+        return a, {}
+    return verify.verify_function('%s[%d filters]' % (which, nf), 'dwt.lowlevel', which, mk, BASE + [Lr2 >= 1],
+                                  names[which], callee, SIZES + [Lr2], check_linear=False)
+
+
+def g_mode_tables():
+    obs = []
+    for fname, table, dom in (('mode_to_int', CD.MODE2INT, list(CD.MODE2INT) + ['bogus']),
+                              ('int_to_mode', CD.INT2MODE, list(CD.INT2MODE) + [7, -1])):
+        for v in dom:
+            CUR.ctx = Ctx([])
+            it = Interp()
+            try:
+                got = ('ret', it.call('dwt.lowlevel', fname, [v], {}, force_body=True))
+            except Raised as r:
+                got = ('raise', r.kind)
+            want = ('ret', table[v]) if v in table else ('raise', 'ValueError')
+            obs.append(Ob('%s[%r]' % (fname, v), 'POST', 'proved' if got == want else 'refuted', 'evaluation', 0,
+                          {} if got == want else {'got': str(got), 'want': str(want)}))
+    # mutually inverse on accepted modes
+    for m, k in CD.MODE2INT.items():
+        back = CD.INT2MODE[k]
+        ok = back == ('periodization' if m == 'per' else m)
+        obs.append(Ob('mode-roundtrip[%s]' % m, 'LEMMA', 'proved' if ok else 'refuted', 'evaluation', 0))
+    return obs, {}
+
+
+# ---------------------------------------------------------------------------
+# one-level Functions (forward)
+# ---------------------------------------------------------------------------
+ONE_LEVEL_CALLEES = {k: CD.CONTRACTS[k] for k in ('dwt.lowlevel:afb1d', 'dwt.lowlevel:sfb1d')}
+
+
+def _fctx(needs=()):
+    o = SObj(None)
+    o.a['needs_input_grad'] = tuple(needs)
+    return o
+
+
+def g_AFB1D_fwd(mode):
+    def mk():
+        x = CD.data_tensor('x', (Bn, C, N))
+        return [_fctx(), x, CD.filt_tensor('h0', (1, 1, L), 2), CD.filt_tensor('h1', (1, 1, L), 2), CD.MODE2INT[mode]], {}
+    return verify.verify_function('AFB1D.forward[%s]' % mode, 'dwt.lowlevel', 'AFB1D.forward', mk,
+                                  [Bn >= 1, C >= 1, N >= 1, L2 >= 1],
+                                  lambda it, fc, *a: CD.AFB1D_apply_contract(it, *a), ONE_LEVEL_CALLEES, [Bn, C, N, L2])
+
+
+def g_SFB1D_fwd(mode):
+    def mk():
+        return [_fctx(), CD.data_tensor('lo', (Bn, C, N)), CD.data_tensor('hi', (Bn, C, N)),
+                CD.filt_tensor('g0', (1, 1, L), 2), CD.filt_tensor('g1', (1, 1, L), 2), CD.MODE2INT[mode]], {}
+    return verify.verify_function('SFB1D.forward[%s]' % mode, 'dwt.lowlevel', 'SFB1D.forward', mk,
+                                  [Bn >= 1, C >= 1, N >= 1, L2 >= 1],
+                                  lambda it, fc, *a: CD.SFB1D_apply_contract(it, *a), ONE_LEVEL_CALLEES, [Bn, C, N, L2])
+
+
+def _filts2d(pref):
+    return [CD.filt_tensor(pref + '0_row', (1, 1, 1, Lr), 3), CD.filt_tensor(pref + '1_row', (1, 1, 1, Lr), 3),
+            CD.filt_tensor(pref + '0_col', (1, 1, L, 1), 2), CD.filt_tensor(pref + '1_col', (1, 1, L, 1), 2)]
+
+
+def g_AFB2D_fwd(mode):
+    def mk():
+        return [_fctx(), CD.data_tensor('x', (Bn, C, H, W))] + _filts2d('h') + [CD.MODE2INT[mode]], {}
+    return verify.verify_function('AFB2D.forward[%s]' % mode, 'dwt.lowlevel', 'AFB2D.forward', mk, BASE + [Lr2 >= 1],
+                                  lambda it, fc, *a: CD.AFB2D_apply_contract(it, *a), ONE_LEVEL_CALLEES,
+                                  SIZES + [Lr2])
+
+
+def g_SFB2D_fwd(mode):
+    def mk():
+        return [_fctx(), CD.data_tensor('ll', (Bn, C, H, W)), CD.data_tensor('hs', (Bn, C, 3, H, W))] + \
+            _filts2d('g') + [CD.MODE2INT[mode]], {}
+    return verify.verify_function('SFB2D.forward[%s]' % mode, 'dwt.lowlevel', 'SFB2D.forward', mk, BASE + [Lr2 >= 1],
+                                  lambda it, fc, *a: CD.SFB2D_apply_contract(it, *a), ONE_LEVEL_CALLEES,
+                                  SIZES + [Lr2])
+
+
+def g_afb2d(mode, nf, as_lists=False):
+    def mk():
+        x = CD.data_tensor('x', (Bn, C, H, W))
+        if as_lists:
+            f = [CD.np1d('d0c', L), CD.np1d('d1c', L)] + ([CD.np1d('d0r', Lr), CD.np1d('d1r', Lr)] if nf == 4 else [])
+        elif nf == 2:
+            f = [CD.filt_tensor('h0', (1, 1, L, 1), 2), CD.filt_tensor('h1', (1, 1, L, 1), 2)]
+        else:
+            r = _filts2d('h')
+            f = [r[2], r[3], r[0], r[1]]
+        return [x, f], {'mode': mode}
+    callees = dict(ONE_LEVEL_CALLEES)
+    callees['dwt.lowlevel:prep_filt_afb2d'] = CD.prep_filt_afb2d_contract
+    return verify.verify_function('afb2d[%s,%d%s]' % (mode, nf, ',lists' if as_lists else ''), 'dwt.lowlevel', 'afb2d',
+                                  mk, BASE + [Lr2 >= 1], CD.afb2d_contract, callees, SIZES + [Lr2])
+
+
+def g_sfb2d(mode, nf, as_lists=False):
+    def mk():
+        ts = [CD.data_tensor(n_, (Bn, C, H, W)) for n_ in ('ll', 'lh', 'hl', 'hh')]
+        if as_lists:
+            f = [CD.np1d('r0c', L), CD.np1d('r1c', L)] + ([CD.np1d('r0r', Lr), CD.np1d('r1r', Lr)] if nf == 4 else [])
+        elif nf == 2:
+            f = [CD.filt_tensor('g0', (1, 1, L, 1), 2), CD.filt_tensor('g1', (1, 1, L, 1), 2)]
+        else:
+            r = _filts2d('g')
+            f = [r[2], r[3], r[0], r[1]]
+        return ts + [f], {'mode': mode}
+    callees = dict(ONE_LEVEL_CALLEES)
+    callees['dwt.lowlevel:prep_filt_sfb2d'] = CD.prep_filt_sfb2d_contract
+    return verify.verify_function('sfb2d[%s,%d%s]' % (mode, nf, ',lists' if as_lists else ''), 'dwt.lowlevel', 'sfb2d',
+                                  mk, BASE + [Lr2 >= 1], CD.sfb2d_contract, callees, SIZES + [Lr2])
